@@ -95,6 +95,21 @@ def make_jobs(cases, planners, n_cases, spaces_per_case, rng, all_r2=False):
     return jobs, chosen
 
 
+def directional_jobs(cases, planners, n_cases, rng):
+    """Non-reversible motions (Dubins): every planner that supports the space runs on reachable maps with
+    obstacles under a budget that lets it connect - bidirectional direction-aware planners must validate
+    goal-tree motions in the direction they are travelled."""
+    pool = [c for c in cases if c["reachable"] and not c["same"] and 1 <= len(c["obst"]) <= 4]
+    jobs = []
+    for c in rng.sample(pool, min(n_cases, len(pool))):
+        runs = [{"planner": p["name"], "space": "DUBINS", "thr": rng.choice(["tiny", "cell"]), "range": "default",
+                 "budget": 6000 if p["flags"] & (F_MT | F_SLOW) else 2500, "seed": rng.randrange(1, 1 << 30), "res": 0.01}
+                for p in planners]
+        for i in range(0, len(runs), 8):
+            jobs.append({"case": c, "runs": runs[i:i + 8]})
+    return jobs
+
+
 def judge(ck, trace, label):
     rows = vlib.read_ndjson(trace)
     bad = []
@@ -140,12 +155,13 @@ def run(tier):
     ck.set("configuration_classes", classes)
     if tier == "quick":
         jobs, chosen = make_jobs(cases3, planners, 36, 1, rng)
+        jobs += directional_jobs(cases3, planners, 8, rng)
     else:
         cases4 = enum_cases(ck, 4, 4, 3, "world4x4")
         ck.set("configurations_4x4_up_to_symmetry", len(cases4))
         j3, c3 = make_jobs(cases3, planners, 700, 1, rng)
         j4, c4 = make_jobs(cases4, planners, 120, 2, rng)
-        jobs, chosen = j3 + j4, c3 + c4
+        jobs, chosen = j3 + j4 + directional_jobs(cases3, planners, 60, rng), c3 + c4
     jpath = os.path.join(WORK, "c01-jobs.ndjson")
     vlib.write_ndjson(jpath, jobs)
     trace, total, notes = planrun.run_sharded(binary, "c01", jpath, os.path.join(WORK, "c01-trace"))
